@@ -206,7 +206,7 @@ func (p *vtPool) spawn() (*vtWorker, error) {
 	if err != nil {
 		return nil, err
 	}
-	cmd := exec.Command(os.Args[0], "-test.run", "^TestVerifWorker$", "-test.timeout", "0") //nolint:gosec
+	cmd := exec.Command(os.Args[0], childArgs("-test.run", "^TestVerifWorker$", "-test.timeout", "0")...) //nolint:gosec
 	cmd.Env = append(os.Environ(), "VERIF_WORKER=1", "GOMAXPROCS=2", "VERIF_CHECK=")
 	cmd.ExtraFiles = []*os.File{jr, rw}
 	w := &vtWorker{cmd: cmd, in: jw, out: bufio.NewReaderSize(rr, 1<<20), stderr: &bytes.Buffer{}}
@@ -223,6 +223,15 @@ func (p *vtPool) spawn() (*vtWorker, error) {
 
 func (w *vtWorker) kill() {
 	_ = w.in.Close()
+	if os.Getenv("VERIF_COVER") != "" { // coverage survey: let the worker leave by itself so that its counters are written
+		done := make(chan struct{})
+		go func() { _ = w.cmd.Wait(); close(done) }()
+		select {
+		case <-done:
+			return
+		case <-time.After(5 * time.Second):
+		}
+	}
 	_ = w.cmd.Process.Kill()
 	_ = w.cmd.Wait()
 }
